@@ -35,6 +35,7 @@ type Contract struct {
 	Assumed   bool
 	MayPanic  bool
 	Wrapping  bool
+	Exits     map[int][]Clause // loop ordinal -> exit clauses
 	CallsOnce string // assumed callee == one call of this closure-typed parameter
 	GhostSets [][2]Clause // ghost assignments performed at return
 	Allocates bool
@@ -405,7 +406,7 @@ func (ct *ContractTable) loadContractFile(path string) error {
 				cur.FuncTypes[strings.TrimSuffix(fields[1], ":")] = fields[2]
 			case "loop":
 				// loop N invariant [tag] expr
-				if len(fields) < 4 || (fields[2] != "invariant" && fields[2] != "step") {
+				if len(fields) < 4 || (fields[2] != "invariant" && fields[2] != "step" && fields[2] != "exit") {
 					return fmt.Errorf("%s:%d: bad loop clause", path, rl.line)
 				}
 				n, err := strconv.Atoi(fields[1])
@@ -419,6 +420,13 @@ func (ct *ContractTable) loadContractFile(path string) error {
 				}
 				if fields[2] == "step" {
 					cur.Steps[n] = append(cur.Steps[n], c)
+				} else if fields[2] == "exit" {
+					// loop N exit e: must hold whenever control leaves the loop other than by a return
+					// statement written inside the loop (evaluated with the loop's local variables)
+					if cur.Exits == nil {
+						cur.Exits = map[int][]Clause{}
+					}
+					cur.Exits[n] = append(cur.Exits[n], c)
 				} else {
 					cur.Loops[n] = append(cur.Loops[n], c)
 				}
